@@ -598,18 +598,20 @@ fn pub_case() -> BoxedStrategy<PubCase> {
 }
 
 pub fn run(ctx: &mut Ctx) {
-    ctx.rule = "hook: exhaustive grid of the internal increment rounder (i128: q in 1..=64 and {100,125,250,500,1000,60e9,3600e9,86400e9}, x in -3q-2..=3q+2 resp. k*q+{0,+-1,q/2,q/2+-1,..}; f64: q in 1..=64, x = k/1, k/2, k/4) x 9 modes against exact rational rounding. public: PlainTime/PlainDateTime/Instant round, until/since with smallestUnit+increment+mode (time largest unit), toString with fractionalSecondDigits 0..9 or smallestUnit on PlainTime/PlainDateTime/Instant/ZonedDateTime(fixed offsets)/Duration; every admissible (unit, increment) is drawn uniformly; values are k*q + {0,+-1,tie,tie+-1,...} or uniform. oracle: exact integer RoundNumberToIncrement; plus the mode-free neighbour invariant. non-trivial = value not a multiple of the increment (classes: tie, tie+-1, off-multiple, odd-increment, negative).".into();
+    ctx.rule = "hook: exhaustive grid of the internal increment rounder (i128: q in 1..=64 and {100,125,250,500,1000,60e9,3600e9,86400e9}, x in -3q-2..=3q+2 resp. k*q+{0,+-1,q/2,q/2+-1,..}; f64: q in 1..=64, x = k/1, k/2, k/4) x 9 modes against exact rational rounding. public: PlainTime/PlainDateTime/Instant round, until/since with smallestUnit+increment+mode (time largest unit), toString with fractionalSecondDigits 0..9 or smallestUnit on PlainTime/PlainDateTime/Instant/ZonedDateTime(fixed offsets)/Duration; every admissible (unit, increment) is drawn uniformly; values are k*q + {0,+-1,tie,tie+-1,...} or uniform. oracle: exact integer RoundNumberToIncrement; plus the mode-free neighbour invariant. non-trivial = value not a multiple of the increment (classes: tie, tie+-1, off-multiple, odd-increment, negative). cal-tie: constructed ties and tie +-1 ns between start + r1 and start + r2 years/months/weeks (r2 = r1 + increment, increments 1..12, 20, 25, 50, 100, both directions) through PlainDateTime/PlainDate until/since and Duration::round relative to a date; oracle RoundNumberToIncrement(r1 + inc/2 +- eps).".into();
     ctx.assumptions = vec!["since(a,b,mode) == round(a-b, mode) is the reading of 'since applies the mode as if negated' (negate, round other-this, negate back)".into()];
     let cases = hook_cases();
     let n = cases.len() as u64;
     ctx.run_enum(&HookSub, n, &|i| cases[i as usize].clone(), true);
     ctx.run_prop(&PubSub, &pub_case, ctx.tier.pick(2_000_000, 60_000_000));
+    ctx.run_prop(&super::c07cal::CalSub, &super::c07cal::cal_case, ctx.tier.pick(400_000, 12_000_000));
 }
 
 pub fn replay(ctx: &mut Ctx, sub: &str, case: &Value) -> bool {
     match sub {
         "hook" => ctx.replay_case(&HookSub, case),
         "public" => ctx.replay_case(&PubSub, case),
+        "cal-tie" => ctx.replay_case(&super::c07cal::CalSub, case),
         _ => false,
     }
 }
